@@ -1074,7 +1074,7 @@ type zqProbeIn struct {
 // whatever form the values are kept in once they have been coerced.
 func goBoundInputProbe() (ds []hx.Discrepancy) {
 	root := ggql.NewRoot(newRootObj())
-	sdl := "input ZqIn { a: Int b: Int = 2 }\ndirective @zqd(p: ZqIn = {a: 1}, l: [ZqIn] = [{a: 3}]) on FIELD | OBJECT\ntype Query @zqd(p: {a: 5}) { f: Int }\n"
+	sdl := "input ZqIn { a: Int b: Int = 2 }\ninput ZqOuter { in: ZqIn, ins: [ZqIn] }\ndirective @zqd(p: ZqIn = {a: 1}, l: [ZqIn] = [{a: 3}], o: ZqOuter = {in: {a: 4}, ins: [{a: 6}]}) on FIELD | OBJECT\ntype Query @zqd(p: {a: 5}, o: {in: {a: 7}}) { f: Int }\n"
 	if err := root.ParseString(sdl); err != nil {
 		return []hx.Discrepancy{{Kind: "setup", Detail: "probe schema refused: " + err.Error()}}
 	}
